@@ -156,9 +156,9 @@ func (g *goGen) expr(v *MVal) string {
 		return g.typeStr(t) + "{" + strings.Join(fs, ", ") + "}"
 	case "iface":
 		if v.Nil || v.Dyn == nil {
-			return "(" + g.typeStr(t) + ")(nil)"
+			return "nil"
 		}
-		return g.typeStr(t) + "(" + g.expr(v.Dyn) + ")"
+		return g.expr(v.Dyn) // implicit conversion to the interface type (which may be unexported)
 	}
 	return "*new(" + g.typeStr(t) + ")"
 }
@@ -262,6 +262,8 @@ func (e *Engine) buildReplay(r *FnResult, o *Obl, smt string) *ReplayFile {
 	for _, in := range ins {
 		args = append(args, g.expr(in))
 	}
+	rf.Inputs = append(rf.Inputs, g.decls...)
+	rf.Inputs = append(rf.Inputs, g.fills...)
 	for i, a := range args {
 		rf.Inputs = append(rf.Inputs, c.inputTerms[i].name+" = "+a)
 	}
